@@ -201,6 +201,19 @@ pub fn run_families(property: &str, tier: &str, fams: Vec<Family>, budget_s: f64
         set_base_secs(fam.base_secs);
         let fam_budget = remaining * weights[fi] / weights[fi..].iter().sum::<f64>();
         let next = AtomicUsize::new(0);
+        let stride = {
+            // A multiplier coprime with the number of scenarios, close to the golden section.
+            fn gcd(a: usize, b: usize) -> usize {
+                if b == 0 { a } else { gcd(b, a % b) }
+            }
+            let n = fam.scenarios.len().max(1);
+            let mut st = ((n as f64) * 0.618_034) as usize;
+            st = st.max(1);
+            while gcd(st, n) != 1 {
+                st += 1;
+            }
+            if n <= 2 { 1 } else { st }
+        };
         let stop = AtomicBool::new(false);
         let stats = Mutex::new(FamStats::default());
         let viols: Mutex<Vec<Violation>> = Mutex::new(vec![]);
@@ -272,10 +285,14 @@ pub fn run_families(property: &str, tier: &str, fams: Vec<Family>, budget_s: f64
                     let last_exec: std::cell::RefCell<Option<(usize, Vec<u16>)>> = std::cell::RefCell::new(None);
                     let prev_of_found: std::cell::RefCell<Option<(usize, Vec<u16>)>> = std::cell::RefCell::new(None);
                     loop {
-                    let i = next.fetch_add(1, Ordering::Relaxed);
-                    if i >= fam.scenarios.len() || stop.load(Ordering::Relaxed) {
+                    let k = next.fetch_add(1, Ordering::Relaxed);
+                    if k >= fam.scenarios.len() || stop.load(Ordering::Relaxed) {
                         break;
                     }
+                    // Scenarios are taken in a strided order (a permutation of the indices), so that
+                    // when the time budget ends early what was explored is spread over the whole
+                    // enumeration instead of being its first part.
+                    let i = (k * stride) % fam.scenarios.len();
                     if tf.elapsed().as_secs_f64() > fam_budget {
                         stats.lock().unwrap().scenarios_skipped += 1;
                         continue;
